@@ -107,16 +107,31 @@ pub fn run_history(seed: u64, idx: u64, exact: bool, verbose: bool) -> Outcome {
                     };
                     #[cfg(not(taffy_verif))]
                     let class = "untraced";
-                    // is the node inside a display:none region (itself or an ancestor display:none)?
+                    // is the node inside a display:none region (itself or an ancestor display:none)? and was the hidden layout
+                    // of one of those display:none nodes executed in this pass (then the whole region must be zero now)?
                     let mut hidden = false;
+                    #[allow(unused_mut)]
+                    let mut hidden_evaluated = false;
                     let mut cur = Some(*n);
                     while let Some(c) = cur {
                         if w.t.style(c).unwrap().display == taffy::Display::None {
                             hidden = true;
+                            #[cfg(taffy_verif)]
+                            if trace.iter().any(|e| matches!(e, taffy::verif_hooks::Event::Hidden { node } if *node == c)) {
+                                hidden_evaluated = true;
+                            }
                         }
                         cur = w.t.parent(c);
                     }
-                    let class = if hidden && class != "scribble" { "hiddenstale" } else { class };
+                    // known finding hidden-region-stale: the display:none ancestors were all answered from the cache (clean),
+                    // so nothing below them was touched; if a hidden layout DID run above the node, a non-zero layout is new
+                    let class = if hidden && hidden_evaluated {
+                        "hiddenevaluated"
+                    } else if hidden && class != "scribble" {
+                        "hiddenstale"
+                    } else {
+                        class
+                    };
                     let rank = if class == "scribble" { 1 } else if class == "hiddenstale" { 2 } else { 3 };
                     let msg = format!(
                         "node#{k}/{} class={} fields={} :: incremental {:?} vs fresh {:?}",
